@@ -696,6 +696,15 @@ func run(line string) string {
 			if res == "panic" {
 				bad = append(bad, fmt.Sprintf("%d^%02x:PANIC", i, x))
 			}
+			// no error was reported anywhere, but the protection was silently not applied: only
+			// MessageDetails.IsEncrypted=false / SignedBy=nil would tell (property clause violated: finding)
+			if res == "unencrypted" || res == "unverified" {
+				same := "same"
+				if !bytes.Equal(body, msg) {
+					same = "DIFFERENT"
+				}
+				bad = append(bad, fmt.Sprintf("%d^%02x:UNCHECKED-%s-%s", i, x, res, same))
+			}
 			if res == "ok" {
 				z := exemptZone(s, d, i, x)
 				if z != "" && bytes.Equal(body, msg) {
@@ -709,6 +718,40 @@ func run(line string) string {
 			}
 		}
 		return "accepted=" + hx.JoinStrs(bad)
+	case "tamper1": // one chosen octet, one chosen mask
+		msg := hx.NewRand(o.U64("seed")).Bytes(o.Int("n"))
+		s := specOf(o, msg)
+		d, err := produce(s)
+		if err != nil {
+			return "err:produce"
+		}
+		i, x := o.Int("pos"), byte(o.Int("xor"))
+		if i >= len(d) {
+			return "bad-op"
+		}
+		m := append([]byte(nil), d...)
+		m[i] ^= x
+		res, body := safeRead(m, s.signer != 0, s.mode != "sign")
+		if os.Getenv("VERIF_DUMP") != "" {
+			fmt.Fprintf(os.Stderr, "original=%x\nmodified=%x\nplaintext=%x\nread=%s body=%x\n", d, m, msg, res, body)
+		}
+		switch res {
+		case "ok", "unencrypted", "unverified":
+			same := "same"
+			if !bytes.Equal(body, msg) {
+				same = "DIFFERENT"
+			}
+			if res == "ok" {
+				if z := exemptZone(s, d, i, x); z != "" && same == "same" {
+					return "accepted=-"
+				}
+				return fmt.Sprintf("accepted=%d^%02x:%s", i, x, same)
+			}
+			return fmt.Sprintf("accepted=%d^%02x:UNCHECKED-%s-%s", i, x, res, same)
+		case "panic":
+			return fmt.Sprintf("accepted=%d^%02x:PANIC", i, x)
+		}
+		return "accepted=-"
 	case "gpg":
 		return gpgOp(o)
 	}
@@ -922,6 +965,32 @@ func emitEnc(g *hx.Gen, cmd string, extra string) {
 		cmd, mode, hx.JoinStrs(rcpt), nr, signer, s, cipher, bs, comp, hashID, r.Intn(2), hx.Hex([]byte(name)), len(name), hx.JoinInts(chunking(r, n)), n, r.U64()>>1, extra)
 }
 
+// single chosen modifications: the two that silently switch the protection off (findings), and controls
+func genTamper1(g *hx.Gen) {
+	r := g.R
+	n := r.PickInt(0, 1, 40)
+	common := fmt.Sprintf("hash=8 bin=1 name=66 namelen=1 ch=- n=%d seed=%d", n, r.U64()>>1)
+	switch r.Intn(4) {
+	case 0: // first tag octet of a passphrase-encrypted MDC message: SKESK (0xC3) → literal data (0xCB)
+		c := r.PickInt(3, 7, 9)
+		bs := 16
+		if c == 3 {
+			bs = 8
+		}
+		g.Stat("tamper1.retag-skesk-literal")
+		g.Emit("tamper1 kind=retag-literal mode=sym rcpt=- nrcpt=0 signer=0 signed=0 cipher=%d bs=%d comp=%d pos=0 xor=8 %s", c, bs, r.PickInt(0, 1, 2), common)
+	case 1: // first tag octet of a public-key encrypted message: PKESK (0xC1) → literal data (0xCB)
+		g.Stat("tamper1.retag-pkesk-literal")
+		g.Emit("tamper1 kind=retag-literal mode=pk rcpt=%s nrcpt=1 signer=0 signed=0 cipher=7 bs=16 comp=0 pos=0 xor=10 %s", r.PickStr("rsa", "elg"), common)
+	case 2: // one-pass-signature key id of an unencrypted signed message (octets 6..13)
+		g.Stat("tamper1.ops-keyid")
+		g.Emit("tamper1 kind=ops-keyid mode=sign rcpt=- nrcpt=0 signer=%d signed=1 cipher=7 bs=16 comp=0 pos=%d xor=%d %s", r.PickInt(1, 17, 19), r.Range(6, 13), r.Range(1, 255), common)
+	default: // control: an octet inside the encrypted data must be caught by the MDC
+		g.Stat("tamper1.control")
+		g.Emit("tamper1 kind=control mode=sym rcpt=- nrcpt=0 signer=0 signed=0 cipher=7 bs=16 comp=0 pos=%d xor=%d %s", r.Range(40, 60), r.Range(1, 255), common)
+	}
+}
+
 func gen(g *hx.Gen) {
 	loadKeys()
 	n := g.Count(2600, 60000)
@@ -963,8 +1032,10 @@ func gen(g *hx.Gen) {
 			g.Emit("dsig text=%d pk=%d hash=%d ct=%d iss=%d msg=%s", r.Intn(2), pk, r.PickInt(2, 8, 9, 10, 11), r.Range(1, 1<<31-1), entByAlgo(pk).PrivateKey.KeyId, hx.Hex(msg))
 		case k < 38:
 			emitEnc(g, "enc", "")
-		default:
+		case k < 39:
 			emitEnc(g, "tamper", fmt.Sprintf(" max=%d", g.Count(120, 100000)))
+		default:
+			genTamper1(g)
 		}
 	}
 	if g.Thorough() {
